@@ -4,6 +4,10 @@ From Coq Require Import QArith Sorting.Permutation.
 From Coq Require Import Floats.
 From Pcfg Require Import Expand ExpandCorr Loader LoaderCorr F64 F64Div ProbAlg Next NextSpec NextProofs QProb QSum QStream.
 From PcfgGen Require Import Consts_gen.
+From Coq Require Import ZArith.
+From Pcfg Require Import LoaderRt LoaderGenProofs.
+From PcfgGen Require Import Loader_gen.
+Import ListNotations.
 
 (* side conditions on facts re-extracted from the source on every run *)
 Theorem C14_source_rewinds_without_markov : skip_brute_rewinds_without_M = true.
@@ -86,3 +90,100 @@ Print Assumptions C14_bases_with_markov.
 Print Assumptions C14_bases_with_markov_binary64.
 Print Assumptions C14_stream_Q.
 Print Assumptions C14_bases_without_markov.
+
+(* ---- second tie to the source: gen/Loader_gen.v is the translation of the Python text of
+   lib_guesser/grammar_io.py _load_base_structures (harness/translate_loader.py, redone on every
+   run): both passes over the file with the file cursor (seek(0) in the found / not-found cases),
+   the division by total_prob (ZeroDivisionError), the tokenisation, the skip_brute filter and the
+   while loop that inserts C<n> behind A<n>.  Called on an empty list it returns what the model
+   loader (with the rewind) returns on the parsed lines: for every carrier of the probabilities
+   [fo] (binary64 or exact), every whitespace / alphabetic class and float(), every grammar.txt
+   (the lines the iteration yields) all of whose lines parse ([parse_all]), both values of
+   skip_brute and any fuel above twice the longest structure string.  [bases_done r m]: r = Done
+   (the model's list, True), or r = Done (what was stored so far, False) where the model fails
+   (ZeroDivisionError, a structure that starts with a non-letter). *)
+Theorem C14_source_load_base_structures_is_model :
+  forall (fo : fops) (ws isalpha : N -> bool) (pfloat : pstr -> option (F fo))
+         (bopen : pstr -> option (list pstr)) (pjoin : list pstr -> pstr)
+         (fuel : nat) (dir folder : pstr) (skip : bool) (lines : list pstr) (ls : list (str * F fo)),
+  bopen (pjoin [dir; folder; grammar_txt]) = Some lines ->
+  parse_all fo ws pfloat lines = Some ls ->
+  Forall (fun l => (2 * length (fst l) < fuel)%nat) ls ->
+  bases_done fo (py_load_base_structures fo ws isalpha pfloat bopen pjoin fuel [] dir skip folder)
+             (load_bases (f_one fo) (f_sub fo) (f_div fo) (f_iszero fo) isalpha true skip ls).
+Proof. exact load_base_structures_eq. Qed.
+
+(* ... and a grammar.txt with a line that does not parse (fewer than two fields, or a second field
+   float() rejects) makes the translated loader return False, for both values of skip_brute and any
+   fuel: together with the theorem above this covers every file *)
+Theorem C14_source_unparsable_file_fails :
+  forall (fo : fops) (ws isalpha : N -> bool) (pfloat : pstr -> option (F fo))
+         (bopen : pstr -> option (list pstr)) (pjoin : list pstr -> pstr)
+         (fuel : nat) (dir folder : pstr) (skip : bool) (lines : list pstr),
+  bopen (pjoin [dir; folder; grammar_txt]) = Some lines ->
+  parse_all fo ws pfloat lines = None ->
+  exists bs, py_load_base_structures fo ws isalpha pfloat bopen pjoin fuel [] dir skip folder = Done (bs, false).
+Proof. exact load_base_structures_unparsable. Qed.
+
+(* the fuel of the generated `while` (no counterpart in Python) is never exhausted *)
+Theorem C14_source_never_out_of_fuel :
+  forall (fo : fops) (ws isalpha : N -> bool) (pfloat : pstr -> option (F fo))
+         (bopen : pstr -> option (list pstr)) (pjoin : list pstr -> pstr)
+         (fuel : nat) (dir folder : pstr) (skip : bool) (lines : list pstr) (ls : list (str * F fo)),
+  bopen (pjoin [dir; folder; grammar_txt]) = Some lines ->
+  parse_all fo ws pfloat lines = Some ls ->
+  Forall (fun l => (2 * length (fst l) < fuel)%nat) ls ->
+  py_load_base_structures fo ws isalpha pfloat bopen pjoin fuel [] dir skip folder <> Fail EOutOfFuel.
+Proof. exact load_base_structures_never_out_of_fuel. Qed.
+
+Theorem C14_source_no_file :
+  forall (fo : fops) (ws isalpha : N -> bool) (pfloat : pstr -> option (F fo))
+         (bopen : pstr -> option (list pstr)) (pjoin : list pstr -> pstr)
+         (fuel : nat) bs (dir folder : pstr) (skip : bool),
+  bopen (pjoin [dir; folder; grammar_txt]) = None ->
+  py_load_base_structures fo ws isalpha pfloat bopen pjoin fuel bs dir skip folder = Done (bs, false).
+Proof. exact load_base_structures_no_file. Qed.
+
+(* C14_bases_with_markov restated over the translated function *)
+Theorem C14_bases_with_markov_translated :
+  forall (fo : fops) (ws isalpha : N -> bool) (pfloat : pstr -> option (F fo))
+         (bopen : pstr -> option (list pstr)) (pjoin : list pstr -> pstr)
+         (fuel : nat) (dir folder : pstr) (lines : list pstr) (ls : list (str * F fo)) (pm : F fo) bs0,
+  bopen (pjoin [dir; folder; grammar_txt]) = Some lines ->
+  parse_all fo ws pfloat lines = Some ls ->
+  Forall (fun l => (2 * length (fst l) < fuel)%nat) ls ->
+  Forall (fun l => f_div fo (snd l) (f_one fo) = snd l) ls ->
+  scan_M ls = Some pm -> f_iszero fo (f_sub fo (f_one fo) pm) = false ->
+  py_load_base_structures fo ws isalpha pfloat bopen pjoin fuel [] dir false folder = Done (bs0, true) ->
+  py_load_base_structures fo ws isalpha pfloat bopen pjoin fuel [] dir true folder =
+    Done (map (fun b => {| bs_prob := f_div fo (bs_prob b) (f_sub fo (f_one fo) pm); bs_repl := bs_repl b |})
+              (filter (fun b => negb (rt_in [77%N] (bs_repl b))) bs0), true).
+Proof. exact bases_with_markov_translated. Qed.
+
+(* C14_bases_without_markov restated over the translated function *)
+Theorem C14_bases_without_markov_translated :
+  forall (fo : fops) (ws isalpha : N -> bool) (pfloat : pstr -> option (F fo))
+         (bopen : pstr -> option (list pstr)) (pjoin : list pstr -> pstr)
+         (fuel : nat) (dir folder : pstr) (lines : list pstr) (ls : list (str * F fo)) l0,
+  bopen (pjoin [dir; folder; grammar_txt]) = Some lines ->
+  parse_all fo ws pfloat lines = Some ls ->
+  Forall (fun l => (2 * length (fst l) < fuel)%nat) ls ->
+  scan_M ls = None -> no_M_token isalpha ls ->
+  load_bases (f_one fo) (f_sub fo) (f_div fo) (f_iszero fo) isalpha true false ls = Some l0 ->
+  py_load_base_structures fo ws isalpha pfloat bopen pjoin fuel [] dir true folder = Done (map (base_of fo) l0, true) /\
+  py_load_base_structures fo ws isalpha pfloat bopen pjoin fuel [] dir false folder = Done (map (base_of fo) l0, true).
+Proof. exact bases_without_markov_translated. Qed.
+
+(* non-vacuity: "A2D1 0.5 / M 0.25 / D3 0.25" in binary64: the lines parse, the translated loader
+   computes the rescaled list without the Markov structure, C2 behind A2 *)
+Theorem C14_source_example :
+  parse_all F64ops ex_ws ex_pfloat ex_grammar =
+    Some [([65; 50; 68; 49]%N, 0.5%float); ([77]%N, 0.25%float); ([68; 51]%N, 0.25%float)] /\
+  py_load_base_structures F64ops ex_ws ex_alpha ex_pfloat ex_open ex_join 20 [] [] true [] =
+  Done ([{| bs_prob := (0.5 / (1 - 0.25))%float; bs_repl := [[65; 50]; [67; 50]; [68; 49]]%N |};
+         {| bs_prob := (0.25 / (1 - 0.25))%float; bs_repl := [[68; 51]]%N |}], true).
+Proof. exact (conj ex_grammar_parses ex_skip_brute_load). Qed.
+
+Print Assumptions C14_source_load_base_structures_is_model.
+Print Assumptions C14_bases_with_markov_translated.
+Print Assumptions C14_bases_without_markov_translated.
